@@ -384,6 +384,13 @@ T5_SCRIPTS = {
     "prologue-runs-once": "mon = SerialMonitor(9600)\nmon.write('boot')\nk = 3\nmon.write(k)\nwhile True:\n    mon.write('pass')\n    sleep(5)\n",
     "first-assigned-in-body-read-next-pass": "mon = SerialMonitor(9600)\nk = 0\nwhile True:\n    if k > 0:\n        mon.write(prev)\n    prev = k * 2\n    k = k + 1\n    sleep(5)\n",
     "body-local-accumulates": "mon = SerialMonitor(9600)\nk = 0\nwhile True:\n    k = k + 1\n    if k == 1:\n        total = 0\n    total = total + k\n    mon.write(total)\n    sleep(5)\n",
+    "hoisted-from-if-then-updated": "mon = SerialMonitor(9600)\nc = 1\nif c > 0:\n    x = 100\nelse:\n    x = 0\nwhile True:\n    x = x + 50\n    mon.write(x)\n    sleep(5)\n",
+    "hoisted-from-for-then-updated": "mon = SerialMonitor(9600)\nfor i in range(3):\n    z = i\nwhile True:\n    z = z + 10\n    mon.write(z)\n    sleep(5)\n",
+    "hoisted-from-while-then-updated": "mon = SerialMonitor(9600)\nk = 0\nwhile k < 2:\n    w = k * 3\n    k = k + 1\nwhile True:\n    w = w + 1\n    mon.write(w)\n    sleep(5)\n",
+    "nested-for-continue-then-rest-of-body": "mon = SerialMonitor(9600)\nn = 0\nwhile True:\n    for i in range(4):\n        if i % 2 == 0:\n            continue\n        mon.write(i)\n    n = n + 1\n    mon.write(n)\n    sleep(5)\n",
+    "nested-while-continue-then-rest-of-body": "mon = SerialMonitor(9600)\nn = 0\nwhile True:\n    k = 0\n    while k < 3:\n        k = k + 1\n        if k == 2:\n            continue\n        mon.write(k)\n    n = n + 1\n    mon.write(n)\n    sleep(5)\n",
+    "main-loop-continue-skips-rest-only": "mon = SerialMonitor(9600)\nn = 0\nwhile True:\n    n = n + 1\n    if n % 2 == 0:\n        continue\n    mon.write(n)\n    sleep(5)\n",
+    "nested-break-then-rest-of-body": "mon = SerialMonitor(9600)\nn = 0\nwhile True:\n    for i in range(5):\n        if i == 2:\n            break\n        mon.write(i)\n    n = n + 1\n    mon.write(n)\n    sleep(5)\n",
     "motor-speed-variable": "mon = SerialMonitor(9600)\nm = DCMotor(2, 3, 5)\nspeed = 0.2\nwhile True:\n    m.set_speed(speed)\n    mon.write(speed)\n    speed = speed + 0.1\n    sleep(5)\n",
     "brightness-variable": "mon = SerialMonitor(9600)\nl = Led(9)\nlevel = 10\nwhile True:\n    l.set_brightness(level)\n    mon.write(level)\n    level = level + 20\n    sleep(5)\n",
     "tone-variable": "mon = SerialMonitor(9600)\nbz = Buzzer(8)\nfreq = 440\nwhile True:\n    bz.play_tone(freq)\n    mon.write(freq)\n    freq = freq + 110\n    sleep(5)\n",
